@@ -541,4 +541,30 @@ def renderSeq (vertical : Bool) (fs : Rat) (width : Nat → Rat) : List SeqItem 
     let (g2, p2) := renderSeq vertical fs width rest p1
     (g1 ++ g2, p2)
 
+/-! ## Pen movement under a non-default text state (`PDFTextDevice.render_string`) -/
+
+/-- Character spacing Tc, word spacing Tw, horizontal scaling Th = Tz / 100. -/
+structure TState where
+  tc : Rat
+  tw : Rat
+  th : Rat
+deriving Repr
+
+/-- The `wordspace` that `render_string` hands to `render_string_horizontal/_vertical`: `Tw * Th`, zeroed for a
+multibyte font (the guard is regenerated from pdfdevice.py). -/
+def wordspaceOf (multibyte : Bool) (ts : TState) : Rat :=
+  if multibyte && Gen.CIDFont.MULTIBYTE_ZEROES_WORDSPACE then 0 else ts.tw * ts.th
+
+/-- Pen displacement after the glyph of cid `c` (`x += adv; x += charspace; if cid == 32 and wordspace: x += wordspace`);
+horizontal: everything scaled by Th; vertical: advance and Tc unscaled. -/
+def penStep (vertical multibyte : Bool) (fs : Rat) (ts : TState) (width : Nat → Rat) (c : Nat) : Rat :=
+  let ws := if c = 32 then wordspaceOf multibyte ts else 0
+  if vertical then width c * (1 / 1000) * fs + ts.tc + ws
+  else width c * (1 / 1000) * fs * ts.th + ts.tc * ts.th + ws
+
+/-- Pen after showing the cids of one string. -/
+def penAfter (vertical multibyte : Bool) (fs : Rat) (ts : TState) (width : Nat → Rat) : List Nat → Rat → Rat
+  | [], p => p
+  | c :: cs, p => penAfter vertical multibyte fs ts width cs (p + penStep vertical multibyte fs ts width c)
+
 end PdfVerif.CIDFont
